@@ -132,6 +132,13 @@ def enum_specs(level):
     # literal spellings and doubled signs
     for e in (["010"], ["07", None], ["017", None, "@0 + 1"], ["1", "@0 + 010"], ["1", "010 * @0", None], ["1", "@0 - -@0 * 2"], ["2", "@0 + +@0"], ["2", "- -@0"], ["2", "-(-@0)"], ["2", "+ -@0"], ["0"], ["00"]):
         specs.append(e)
+    # a signed operand in the middle of a chain of three: the grouping of the chain decides what the sign's operand is
+    for o1 in OPS:
+        for sg in ("-", "+"):
+            for o2 in OPS:
+                for b in ("2", "@0"):
+                    specs.append(["5", "17 %s %s%s %s 3" % (o1, sg, b, o2), None])
+                specs.append(["5", "@0 %s %s(2) %s @0" % (o1, sg, o2)])
     # four and five members: every mix of implicit / literal / expression-valued members, so that the
     # running "last explicit value + offset" state of the emitters is exercised across several resets
     kinds = [lambda i: None, lambda i: str(3 * i + 1), lambda i: ("@%d + 1" % (i - 1)) if i else "1 + 1",
